@@ -2,12 +2,12 @@ CONSTANTS
   MaxTasks = 5
   MaxSend = 2
   WithOnConnect = TRUE
-  HandlerCloses = FALSE
+  HandlerCloses = TRUE
   WithCloser = FALSE
   Dev_NoConnRecheck = FALSE
   Dev_NoInputRecheck = FALSE
   Dev_HupLockTwice = FALSE
   Dev_NoHupTask = FALSE
 SPECIFICATION Spec
-INVARIANTS DisconnectBeforeClose
+INVARIANTS TypeOK NoBadButF11 NoLeak DisconnectRan AllOffered TaskBudget
 CHECK_DEADLOCK FALSE
